@@ -1,6 +1,8 @@
 #include <symengine/logic.h>
 #include <symengine/assumptions.h>
 #include <symengine/number.h>
+#include <symengine/infinity.h>
+#include <symengine/nan.h>
 
 namespace SymEngine
 {
@@ -92,7 +94,10 @@ Assumptions::Assumptions(const set_basic &statements)
             const auto arg1 = equals.get_arg1();
             const auto arg2 = equals.get_arg2();
             if (is_a_Number(*arg1) and is_a<Symbol>(*arg2)) {
-                complex_symbols_.insert(arg2);
+                // an infinity or NaN is a Number but not a complex number
+                if (not is_a<Infty>(*arg1) and not is_a<NaN>(*arg1)) {
+                    complex_symbols_.insert(arg2);
+                }
                 if (down_cast<const Number &>(*arg1).is_zero()) {
                     set_map(zero_, arg2, true);
                     real_symbols_.insert(arg2);
